@@ -684,6 +684,19 @@ func c18(r *ev.Run) {
 				check(fresh, q, "fresh")
 			}
 		}
+		// requests WITHOUT a timestamp on one keep-alive connection, more than a second apart: each must be answered for "now"
+		nowReq := rreq{Method: "POST", Path: "/totp/generate", Fields: map[string]any{"secret": ref.B32Encode(restKey), "period": 1}}
+		nowVal := func() rreq {
+			return rreq{Method: "POST", Path: "/totp/validate", Fields: map[string]any{"secret": ref.B32Encode(restKey), "period": 1, "code": ref.HOTP(restKey, uint64(time.Now().Unix()), 6, 0)}}
+		}
+		for i := 0; i < 3; i++ {
+			check(ka, nowReq, "keep-alive-now")
+			// with a 1 s period the verdict for the current code is only decided away from a second boundary
+			if ns := time.Now().Nanosecond(); ns > 100_000_000 && ns < 600_000_000 {
+				check(ka, nowVal(), "keep-alive-now")
+			}
+			time.Sleep(1100 * time.Millisecond)
+		}
 		var wg sync.WaitGroup
 		var mu sync.Mutex
 		for w := 0; w < 8; w++ {
